@@ -90,3 +90,50 @@ def count_flops(e, seen=None):
     for c in children(e):
         n += count_flops(c, seen)
     return n
+
+
+def structural_id(e):
+    """Identity of a subexpression in the FINEST sense: class, field-wise structure, and for
+    constants the Python type and repr (`1`, `1.0`, `True` differ; so do `0.0` and `-0.0`).
+    Keyword mappings are compared as mappings (sorted by name).  A float nan is only identical to
+    itself as an object (it is not `==` to anything)."""
+    if e is None:
+        return ("NoneType",)
+    if isinstance(e, float) and e != e:
+        return ("float", "nan", id(e))
+    if isinstance(e, (bool, int, float, complex, str, bytes)):
+        return (type(e).__name__, repr(e))
+    if isinstance(e, (tuple, list)):
+        return (type(e).__name__, tuple(structural_id(c) for c in e))
+    if isinstance(e, p.Expression) and dataclasses.is_dataclass(e):
+        out = [type(e).__module__ + "." + type(e).__qualname__]
+        for f in dataclasses.fields(e):
+            v = getattr(e, f.name)
+            if hasattr(v, "items"):
+                out.append((f.name, "map",
+                            tuple(sorted((str(k), structural_id(x)) for k, x in v.items()))))
+            else:
+                out.append((f.name, structural_id(v)))
+        return tuple(out)
+    return ("object", type(e).__name__, id(e))
+
+
+def distinct_counts(e):
+    """(coarsest, finest) number of distinct subexpressions of `e`: classes of the subterms under
+    Python `==` alone (no hashing involved; `is` counts as equal, as in Python containers), and
+    number of different `structural_id`s."""
+    subs = subterms(e)
+    fine = len({structural_id(s) for s in subs})
+    reps = []
+    for s in subs:
+        for r in reps:
+            if r is s:
+                break
+            try:
+                if type(r == s) is bool and r == s:
+                    break
+            except Exception:
+                pass
+        else:
+            reps.append(s)
+    return len(reps), fine
